@@ -25,7 +25,7 @@ RULE = ('weighted designs of strata S2 and S2s whose constraints do not name a w
 ASSUMPTIONS = ['copy expansion is the property\'s own description of weights on factors outside the crossing',
                'reference model vt/ref.py for the additional comparison']
 BUDGET_S = {'quick': 90, 'thorough': 400}
-CAP = {'quick': 500, 'thorough': 6000}
+CAP = {'quick': 500, 'thorough': 1500}
 
 
 def weighted_basic(spec):
